@@ -411,7 +411,7 @@ type c11Scenario struct {
 func c11Blocks(w *fix.World) [][]pb.Transaction {
 	from, to := fix.FullID(fix.ChainA, fix.Svc1), fix.FullID(fix.ChainB, fix.Svc2)
 	return [][]pb.Transaction{
-		{w.TransferTx(fix.KUser, fix.KUser2, "5")},
+		{w.TransferTx(fix.KUser, fix.KUser2, "5"), fix.XVMDeploy(fix.KUser, w.N.Next(fix.KUser), fix.WasmTestdata("ledger_test_gc.wasm"))},
 		{fix.IBTPTx(fix.KA, w.N.Next(fix.KA), &pb.IBTP{From: from, To: to, Index: 1, TimeoutHeight: 2}, fix.GoodProof), w.TransferTx(fix.KUser, fix.KUser2, "1")},
 		{},
 		{fix.IBTPTx(fix.KB, w.N.Next(fix.KB), &pb.IBTP{From: from, To: to, Index: 1, Type: pb.IBTP_RECEIPT_SUCCESS}, fix.GoodProof)},
@@ -483,7 +483,7 @@ func C11(c *mc.Ctx) {
 	}
 	fix.Cleanup()
 	c.Set("distinct_nontrivial", len(distinct))
-	c.Set("rule", "for each block commit of 3 scenarios (post-prelude chain with journal pruning: transfer, IBTP request + transfer, empty block, IBTP receipt; young chain heights 2-4; genesis block 1) every product of prefixes of the recorded durable writes (state-store batches x chain-index batch x ordered blockfile appends) is materialised on a copy of the pre-commit data and reopened through ledger.New; distinct = distinct (scenario,height,prefix triple)")
+	c.Set("rule", "for each block commit of 3 scenarios (post-prelude chain with journal pruning: transfer + WASM contract deployment (new account with code), IBTP request + transfer, empty block, IBTP receipt; young chain heights 2-4; genesis block 1) every product of prefixes of the recorded durable writes (state-store batches x chain-index batch x ordered blockfile appends) is materialised on a copy of the pre-commit data and reopened through ledger.New; distinct = distinct (scenario,height,prefix triple)")
 	c.Assume("process death, not power loss: each durable write (leveldb batch, one file append) is all-or-nothing and each writer's writes reach the OS in program order")
 	c.Assume("memkv stands in for goleveldb; the blockfile is the real one")
 	c.Set("exhaustive", true)
